@@ -219,8 +219,40 @@ class Director:
         if top and r < 0.45 and len(sess.stack) > 3:
             return 'pop', b'\x1b'
         kind = rng.choices(
-            ['inst', 'weaken', 'gen', 'subst', 'mp_search', 'inst_pat', 'push', 'axiom', 'mp_raw', 'gen_raw', 'imp_refl', 'distribute'],
-            [22, 14, 14, 14, 8, 5, 5, 6, 3, 3, 4, 6])[0]
+            ['inst', 'weaken', 'gen', 'subst', 'mp_search', 'inst_pat', 'push', 'axiom', 'mp_raw', 'gen_raw', 'imp_refl', 'distribute',
+             'pending_gen', 'pending_mu'],
+            [22, 14, 14, 14, 8, 5, 5, 6, 3, 3, 4, 6, 6, 4])[0]
+        if kind == 'pending_gen':
+            # freshness THROUGH a pending substitution, then instantiation INTO it:
+            #   E = phi_i[g/x];  Prop1[phi0:=E, phi1:=s]  =  E -> (s -> E);  Generalization x;  Instantiate phi_i := q
+            i = rng.choice((0, 1, 2, 3))
+            x = rng.choice(self.evs)
+            base = tb.mv(i, *gp.rand_constraints(rng, self.evs, self.svs, p=0.3)) if rng.random() < 0.4 else tb.mv(i)
+            g = rng.choice((tb.sy(rng.choice(self.syms)), tb.ev((x + 1) % 3), tb.ap(tb.ev(x), tb.sy(rng.choice(self.syms))),
+                            tb.im(tb.ev((x + 1) % 3), tb.ev(x)), tb.sv(rng.choice(self.svs))))
+            E = tb.es(base, x, g)
+            s_ = tb.sy(rng.choice(self.syms))
+            q = rng.choice((tb.ev(x), tb.ap(tb.sy(rng.choice(self.syms)), tb.ev(x)), tb.ex((x + 1) % 3, tb.ev(x)),
+                            tb.mv((i + 1) % 4, *gp.rand_constraints(rng, self.evs, self.svs, p=0.4)), tb.mv((i + 1) % 4),
+                            self.small_pattern(E, meta=0.3)))
+            code = emit(s_) + emit(E) + bytes([12, 26, 2, 0, 1, 22, x]) + emit(q) + bytes([27])   # build q, pop it (keeps the stream shape simple)
+            code = emit(s_) + emit(E) + bytes([12, 26, 2, 0, 1, 22, x, 28, 27]) + emit(q) + bytes([29, len(sess.memory), 26, 1, i]) if len(sess.memory) < 250 else code
+            return 'pending_gen', code
+        if kind == 'pending_mu':
+            # positivity THROUGH a pending substitution: P = mu X . (phi_i{constraints}[g/Y]) built as a pattern, used as a plug, then phi_i instantiated
+            i = rng.choice((0, 1, 2))
+            X, Y = rng.sample(list(self.svs), 2)
+            cons = gp.rand_constraints(rng, self.evs, self.svs, p=0.45)
+            base = tb.mv(i, *cons)
+            g = rng.choice((tb.sv(X), tb.neg(tb.sv(X)), tb.ap(tb.sy(rng.choice(self.syms)), tb.sv(X)), tb.sy(rng.choice(self.syms)), tb.im(tb.sv(X), tb.sv(Y))))
+            inner = tb.ss(base, Y, g) if rng.random() < 0.6 else tb.es(base, rng.choice(self.evs), g)
+            body = rng.choice((inner, tb.neg(inner), tb.ap(tb.sy(rng.choice(self.syms)), inner), tb.neg(tb.neg(inner))))
+            Pm = tb.mu(X, body)
+            q = rng.choice((tb.sv(Y), tb.neg(tb.sv(Y)), tb.sv(X), tb.neg(tb.sv(X)), tb.ap(tb.sv(X), tb.sv(Y)), self.small_pattern(Pm, meta=0.2)))
+            if len(sess.memory) >= 250:
+                return 'axiom', bytes([rng.choice(AXIOM_OPS)])
+            code = emit(tb.sy(rng.choice(self.syms))) + emit(Pm) + bytes([12, 26, 2, 0, 1, 28, 27]) + emit(q) + bytes([29, len(sess.memory), 26, 1, i])
+            return 'pending_mu', code
         if kind == 'imp_refl':
             p = self.small_pattern(top[1] if top else None, meta=0.4)
             q = self.small_pattern(None, meta=0.3, depth=1)
